@@ -2,7 +2,6 @@ package main
 
 import (
 	"fmt"
-	"go/constant"
 	"go/token"
 	"go/types"
 
@@ -110,6 +109,53 @@ func rulesC13(w *World, r *Report) {
 		} else {
 			r.OK("C13.R1", key+":close-on-failure", w.instrPos(lockCall), fmt.Sprintf("all %d failure returns after the lock pass w.file.Close()", nExits))
 		}
+		// what those paths close is the file that was opened: a Close on the handle's file field comes after the field
+		// was given the opened file (in the constructor, or inside a function it called before), not on a nil field
+		bad := ""
+		nClose := 0
+		for _, c := range callsIn(ctor) {
+			sc := c.Common().StaticCallee()
+			if sc == nil || !isMethodFunc(sc, "os", "File", "Close") || len(c.Common().Args) == 0 {
+				continue
+			}
+			u, isLoad := c.Common().Args[0].(*ssa.UnOp)
+			if !isLoad || u.Op != token.MUL {
+				continue
+			}
+			_, fld, isFld := fieldAddrOf(u.X)
+			if !isFld {
+				continue
+			}
+			nClose++
+			assigned := false
+			storesField := func(g *ssa.Function) bool {
+				found := false
+				eachInstr(g, func(in ssa.Instruction) {
+					if st, ok := in.(*ssa.Store); ok {
+						if _, n2, ok2 := fieldAddrOf(st.Addr); ok2 && n2 == fld && !isNilConst(st.Val) {
+							found = true
+						}
+					}
+				})
+				return found
+			}
+			eachInstr(ctor, func(in ssa.Instruction) {
+				switch t := in.(type) {
+				case *ssa.Store:
+					if _, n2, ok2 := fieldAddrOf(t.Addr); ok2 && n2 == fld && !isNilConst(t.Val) && dominatesInstr(t, c.(ssa.Instruction)) {
+						assigned = true
+					}
+				case *ssa.Call:
+					if g := t.Common().StaticCallee(); g != nil && pkgOf(g) == w.Lib && dominatesInstr(t, c.(ssa.Instruction)) && storesField(g) {
+						assigned = true
+					}
+				}
+			})
+			if !assigned && bad == "" {
+				bad = "the Close at " + w.instrPos(c) + " is applied to the handle's field `" + fld + "` before anything was stored there"
+			}
+		}
+		r.Check(bad == "", "C13.R1", key+":closes-the-opened-file", w.pos(ctor.Pos()), fmt.Sprintf("%d Close calls on the handle's file field, each after the field was set", nClose), ctor.Name()+": "+bad+": Close on a nil *os.File only returns an error, the descriptor stays open and locked")
 	}
 
 	// ---------- R2
@@ -243,89 +289,18 @@ func rulesC13(w *World, r *Report) {
 	// the open itself must not change the file: it happens before the lock is asked for, so O_TRUNC in the flag
 	// empties the file under the session that holds it
 	{
-		trunc := int64(0)
-		for _, imp := range w.LibP.Types.Imports() {
-			if imp.Path() == "os" {
-				if c, ok := imp.Scope().Lookup("O_TRUNC").(*types.Const); ok {
-					trunc, _ = constant.Int64Val(c.Val())
-				}
-			}
-		}
-		var flagArgs []ssa.Value
-		for _, f := range libFuncs(w) {
-			for _, c := range callsIn(f) {
-				if isCallToPkgFunc(c, "os", "OpenFile") && len(c.Common().Args) == 3 {
-					flagArgs = append(flagArgs, c.Common().Args[1])
-				}
-			}
-		}
+		trunc := osConst(w, "O_TRUNC")
+		consts, nArgs := openFlagConsts(w)
 		bad := ""
-		nConst := 0
-		seen := map[ssa.Value]bool{}
-		var visit func(v ssa.Value)
-		visit = func(v ssa.Value) {
-			if seen[v] || bad != "" {
-				return
-			}
-			seen[v] = true
-			switch t := v.(type) {
-			case *ssa.Const:
-				if k, ok := constInt(t); ok {
-					nConst++
-					if trunc != 0 && k&trunc != 0 {
-						bad = "a flag value containing os.O_TRUNC"
-					}
-				}
-			case *ssa.BinOp:
-				visit(t.X)
-				visit(t.Y)
-			case *ssa.Phi:
-				for _, e := range t.Edges {
-					visit(e)
-				}
-			case *ssa.Convert:
-				visit(t.X)
-			case *ssa.ChangeType:
-				visit(t.X)
-			case *ssa.UnOp:
-				if t.Op != token.MUL {
-					visit(t.X)
-					return
-				}
-				if _, name, ok := fieldAddrOf(t.X); ok {
-					// every store to that field in the package
-					for _, g := range libFuncs(w) {
-						eachInstr(g, func(in ssa.Instruction) {
-							if st, isSt := in.(*ssa.Store); isSt {
-								if _, n2, ok2 := fieldAddrOf(st.Addr); ok2 && n2 == name {
-									visit(st.Val)
-								}
-							}
-						})
-					}
-				}
-			case *ssa.Parameter:
-				// the value the caller asked for (WithOpenFileFlag), or passed down from a caller in the package
-				for _, g := range libFuncs(w) {
-					for _, c := range callsIn(g) {
-						if c.Common().StaticCallee() == t.Parent() {
-							for i, q := range t.Parent().Params {
-								if q == t && i < len(c.Common().Args) {
-									visit(c.Common().Args[i])
-								}
-							}
-						}
-					}
-				}
+		for _, k := range consts {
+			if trunc != 0 && k&trunc != 0 {
+				bad = "a flag value containing os.O_TRUNC"
 			}
 		}
-		for _, a := range flagArgs {
-			visit(a)
-		}
-		if trunc == 0 || len(flagArgs) == 0 {
+		if trunc == 0 || nArgs == 0 {
 			r.Undecided("C13.R3", "openFileFlag:no-truncate", "-", "os.O_TRUNC or the os.OpenFile call not found")
 		} else {
-			r.Check(bad == "", "C13.R3", "openFileFlag:no-truncate", w.pos(oal.Pos()), fmt.Sprintf("%d constants reach the flag of os.OpenFile, none with O_TRUNC", nConst), "os.OpenFile is reached by "+bad+": open(2) empties the file before flock is even asked for, under the session that holds the lock")
+			r.Check(bad == "", "C13.R3", "openFileFlag:no-truncate", w.pos(oal.Pos()), fmt.Sprintf("%d constants reach the flag of os.OpenFile, none with O_TRUNC", len(consts)), "os.OpenFile is reached by "+bad+": open(2) empties the file before flock is even asked for, under the session that holds the lock")
 		}
 	}
 
@@ -608,4 +583,75 @@ func reachesLibFn(w *World, f, target *ssa.Function) bool {
 		return false
 	}
 	return w.findPath(f, func(g *ssa.Function) bool { return g == target }, func(g *ssa.Function) bool { return pkgOf(g) == w.Lib }) != nil
+}
+
+// openFlagConsts: the integer constants that can reach the flag argument of an os.OpenFile call of package whispertool:
+// backward slice through arithmetic, phis, the handle's option field (every store to it in the package) and parameters
+// (the arguments of the package's own call sites; what a caller outside passes to an option is the caller's choice).
+func openFlagConsts(w *World) (consts []int64, nArgs int) {
+	var flagArgs []ssa.Value
+	for _, f := range libFuncs(w) {
+		for _, c := range callsIn(f) {
+			if isCallToPkgFunc(c, "os", "OpenFile") && len(c.Common().Args) == 3 {
+				flagArgs = append(flagArgs, c.Common().Args[1])
+			}
+		}
+	}
+	seen := map[ssa.Value]bool{}
+	var visit func(v ssa.Value)
+	visit = func(v ssa.Value) {
+		if seen[v] {
+			return
+		}
+		seen[v] = true
+		switch t := v.(type) {
+		case *ssa.Const:
+			if k, ok := constInt(t); ok {
+				consts = append(consts, k)
+			}
+		case *ssa.BinOp:
+			visit(t.X)
+			visit(t.Y)
+		case *ssa.Phi:
+			for _, e := range t.Edges {
+				visit(e)
+			}
+		case *ssa.Convert:
+			visit(t.X)
+		case *ssa.ChangeType:
+			visit(t.X)
+		case *ssa.UnOp:
+			if t.Op != token.MUL {
+				visit(t.X)
+				return
+			}
+			if _, name, ok := fieldAddrOf(t.X); ok {
+				for _, g := range libFuncs(w) {
+					eachInstr(g, func(in ssa.Instruction) {
+						if st, isSt := in.(*ssa.Store); isSt {
+							if _, n2, ok2 := fieldAddrOf(st.Addr); ok2 && n2 == name {
+								visit(st.Val)
+							}
+						}
+					})
+				}
+			}
+		case *ssa.Parameter:
+			for _, g := range libFuncs(w) {
+				for _, c := range callsIn(g) {
+					if c.Common().StaticCallee() == t.Parent() {
+						for i, q := range t.Parent().Params {
+							if q == t && i < len(c.Common().Args) {
+								visit(c.Common().Args[i])
+							}
+						}
+					}
+				}
+			}
+		}
+	}
+	for _, a := range flagArgs {
+		visit(a)
+	}
+	return consts, len(flagArgs)
 }
